@@ -62,6 +62,12 @@ extern "C" int h_sys_stepping(void* m, unsigned adaptive, unsigned nsteps, unsig
 #endif
   return 0;
 }
+// step-size and error-control parameters (each a different value so that a swapped argument is visible)
+extern "C" int h_sys_control(void* m, double h, double hmin, double hmax, double eabs, double erel){
+  Sys* s=static_cast<Sys*>(m);
+  s->Set_h(h); s->Set_h_min(hmin); s->Set_h_max(hmax); s->Set_abs_error(eabs); s->Set_rel_error(erel);
+  return 0;
+}
 extern "C" int h_sys_evolve(void* m, double dt){ try{ static_cast<Sys*>(m)->Evolve(dt); return 0; }catch(std::exception&){ return 1; }catch(...){ return 3; } }
 extern "C" double h_sys_get_t(void* m){ return static_cast<Sys*>(m)->Get_t(); }
 extern "C" double h_sys_get_tini(void* m){ return static_cast<Sys*>(m)->Get_t_initial(); }
@@ -97,6 +103,25 @@ extern "C" int h_ref_rhs(unsigned d, unsigned mask, double* rho, double* hi, dou
 }
 
 #ifndef VERIF_SYMBOLIC
+// ---- native observation of the parameters SQuIDS hands to the GSL driver: these definitions interpose on libgsl inside this shared object
+#include <dlfcn.h>
+#include <gsl/gsl_odeiv2.h>
+static double g_ctl[5]={-1,-1,-1,-1,-1};   // hstart, epsabs, epsrel, hmin, hmax as received by the driver
+extern "C" gsl_odeiv2_driver* gsl_odeiv2_driver_alloc_y_new(const gsl_odeiv2_system* sys, const gsl_odeiv2_step_type* T, const double hstart, const double epsabs, const double epsrel){
+  typedef gsl_odeiv2_driver* (*fn)(const gsl_odeiv2_system*, const gsl_odeiv2_step_type*, double, double, double);
+  static fn real=(fn)dlsym(RTLD_NEXT,"gsl_odeiv2_driver_alloc_y_new");
+  g_ctl[0]=hstart; g_ctl[1]=epsabs; g_ctl[2]=epsrel;
+  return real(sys,T,hstart,epsabs,epsrel);
+}
+extern "C" int gsl_odeiv2_driver_set_hmin(gsl_odeiv2_driver* d, const double hmin){
+  typedef int (*fn)(gsl_odeiv2_driver*, double); static fn real=(fn)dlsym(RTLD_NEXT,"gsl_odeiv2_driver_set_hmin");
+  g_ctl[3]=hmin; return real(d,hmin);
+}
+extern "C" int gsl_odeiv2_driver_set_hmax(gsl_odeiv2_driver* d, const double hmax){
+  typedef int (*fn)(gsl_odeiv2_driver*, double); static fn real=(fn)dlsym(RTLD_NEXT,"gsl_odeiv2_driver_set_hmax");
+  g_ctl[4]=hmax; return real(d,hmax);
+}
+extern "C" int h_ctl_read(double* out){ for(int k=0;k<5;k++) out[k]=g_ctl[k]; return 0; }
 // ---- validation of the driver stub's contract against the REAL GSL driver (native build only): the first callback of every integration call
 // reads the user's state array, an output buffer is never the input buffer, times stay inside the integration interval
 #include <gsl/gsl_odeiv2.h>
